@@ -409,8 +409,8 @@ def select_eval(run: Run, model: PyModel, P: "_Pipeline") -> None:
     """What each selector renders for a group, through the whole pipeline (notes with marker bodies, tags out of alphabetical order with repeats, an empty
     property value): distinct values in first-seen order of the ORDERED notes (sorted only under `O alpha`), NOTE through Note.to_string, count(x) the
     number of values selecting x yields, a property's values including the empty one."""
-    specs = [dict(body="b1 text", tags=["b", "a"], props={"k": "v2", "j": "x"}, links=["l2", "l1"], fp="q.zo", line=1), dict(body="b2", tags=["a", "c"], props={"k": "v1"}, links=["l1"], fp="p.zo", line=1),
-             dict(body="b3", tags=[], props={"k": "v2"}, links=[], fp="q.zo", line=2), dict(body="b4", tags=[], props={"k": ""}, links=[], fp="q.zo", line=3), dict(body="b5", tags=[], props={"k": "v3"}, links=[], fp="q.zo", line=4)]
+    specs = [dict(body="b1 text", tags=["b", "a"], props={"k": "v2", "j": "x"}, links=["l2", "l1"], fp="q.zo", line=1), dict(body="b2", tags=["a", "c"], props={"k": "v1", "j": "w"}, links=["l1"], fp="p.zo", line=1),
+             dict(body="b3", tags=[], props={"k": "v2"}, links=[], fp="q.zo", line=2), dict(body="b4", tags=[], props={"k": ""}, links=[], fp="q.zo", line=3), dict(body="b5", tags=[], props={"k": "v3", "j": "y"}, links=[], fp="q.zo", line=4)]
 
     def distinct(xs):
         return list(dict.fromkeys(xs))
@@ -447,8 +447,15 @@ def select_eval(run: Run, model: PyModel, P: "_Pipeline") -> None:
                       f"({'sorted only when ordered by alpha' if not alpha else 'sorted under alpha'})", file=FILE_X)
     for q, kw, exp, rid in ((f"{T}.SelectAggregation", dict(func_name="count", select_type=P.SS["AREA"]), lambda order: [str(len(values("AREA", order)))], "C09.R5"),
                             (f"{T}.SelectAggregation", dict(func_name="count", select_type=P.SS["NOTE"]), lambda order: [str(len(order))], "C09.R5"),
-                            (f"{T}.SelectPropertyValues", dict(key="k"), lambda order: distinct(specs[i]["props"]["k"] for i in order if "k" in specs[i]["props"]), "C09.R3")):
-        r = P.go(rid, q.split(".")[-1], specs, lambda st, q=q, kw=kw: P.I.construct(q, [], kw, st)[0][0], [], ["NONE"])
+                            (f"{T}.SelectPropertyValues", dict(key="k"), lambda order: distinct(specs[i]["props"]["k"] for i in order if "k" in specs[i]["props"]), "C09.R3"),
+                            # a key two notes in the middle of the ordered selection lack: notes without it contribute nothing (no phantom empty value; the rendering is stripped, so one at either end would not show)
+                            (f"{T}.SelectPropertyValues", dict(key="j"), lambda order: distinct(specs[i]["props"]["j"] for i in order if "j" in specs[i]["props"]), "C09.R3"),
+                            (f"{T}.SelectAggregation", dict(func_name="count", select_type=("pv", "j")), lambda order: [str(len(distinct(specs[i]["props"]["j"] for i in order if "j" in specs[i]["props"])))], "C09.R5")):
+        def build(st, q=q, kw=kw):
+            kw = {k: (P.I.construct(f"{T}.SelectPropertyValues", [], dict(key=x[1]), st)[0][0] if isinstance(x, tuple) and x[0] == "pv" else x) for k, x in kw.items()}
+            return P.I.construct(q, [], kw, st)[0][0]
+
+        r = P.go(rid, q.split(".")[-1], specs, build, [], ["NONE"])
         if r is None:
             continue
         raw, groups = r
@@ -461,6 +468,6 @@ def select_eval(run: Run, model: PyModel, P: "_Pipeline") -> None:
         while w2 and w2[-1] == "":
             w2.pop()
         run.check(rid, f"{q.split('.')[-1]}({', '.join(f'{k}={getattr(x, 'member', x)}' for k, x in kw.items())}) yields {want}", got == w2, "execute_with_session", f"{q.split('.')[-1]} -> {got}",
-                  f"{q.split('.')[-1]} over five notes (areas b,a / a,c / - / - / -; property k = v2, v1, v2, '', v3) yields {got}, expected {want}" + (" (count(x) must be the number of values selecting x yields)" if "Aggregation" in q else ""), file=FILE_X)
+                  f"{q.split('.')[-1]} over five notes (areas b,a / a,c / - / - / -; property k = v2, v1, v2, '', v3) (and j = x, w, -, -, y) yields {got}, expected {want}" + (" (count(x) must be the number of values selecting x yields)" if "Aggregation" in q else ""), file=FILE_X)
 
 
